@@ -102,9 +102,90 @@ fn lookup_tok(d: &Dispatch, id: &span::Id) -> i64 {
         .unwrap_or(0)
 }
 
+/// `racedrop` behaviours: the last references of a span are released by several real threads at the same moment, many
+/// rounds; a counting layer reports how often each span was closed (spec/Registry/RefCountRace).
+struct CloseCount(Arc<Mutex<HashMap<u64, u32>>>);
+impl<C: tracing_core::Collect + for<'a> LookupSpan<'a>> Subscribe<C> for CloseCount {
+    fn on_close(&self, id: span::Id, _: Context<'_, C>) {
+        *self.0.lock().unwrap().entry(id.into_u64()).or_insert(0) += 1;
+    }
+}
+fn racedrop(beh: &Value) {
+    let rounds = beh["rounds"].as_u64().unwrap();
+    let k = beh["threads"].as_u64().unwrap() as usize;
+    let counts = Arc::new(Mutex::new(HashMap::new()));
+    let d = Dispatch::new(Registry::default().with(CloseCount(counts.clone())));
+    let (mut closes, mut dup, mut missing, mut panics) = (0u64, 0u64, 0u64, 0u64);
+    let r = vh_common::catch(|| {
+        dispatch::with_default(&d, || {
+            let mut batch = 0;
+            while batch < rounds {
+                // k holder threads; each round hands every holder one clone, a barrier releases them together
+                let n = (rounds - batch).min(2000);
+                let spans: Vec<Span> = (0..n).map(|i| tracing::span!(Level::INFO, "race", k = i)).collect();
+                let ids: Vec<u64> = spans.iter().map(|s| s.id().unwrap().into_u64()).collect();
+                let mut per: Vec<Vec<Span>> = (0..k).map(|_| Vec::with_capacity(n as usize)).collect();
+                for s in &spans {
+                    for h in per.iter_mut().skip(1) {
+                        h.push(s.clone());
+                    }
+                }
+                per[0] = spans;
+                // a spin barrier per item: the holders leave it within nanoseconds of each other
+                let arrived: Arc<Vec<std::sync::atomic::AtomicUsize>> = Arc::new((0..n).map(|_| std::sync::atomic::AtomicUsize::new(0)).collect());
+                let hs: Vec<_> = per
+                    .into_iter()
+                    .map(|mine| {
+                        let a = arrived.clone();
+                        let d = d.clone();
+                        std::thread::spawn(move || {
+                            let _g = dispatch::set_default(&d);
+                            for (i, s) in mine.into_iter().enumerate() {
+                                a[i].fetch_add(1, std::sync::atomic::Ordering::SeqCst);
+                                while a[i].load(std::sync::atomic::Ordering::SeqCst) < k {
+                                    std::hint::spin_loop();
+                                }
+                                drop(s);
+                            }
+                        })
+                    })
+                    .collect();
+                for h in hs {
+                    if h.join().is_err() {
+                        panics += 1;
+                    }
+                }
+                let c = counts.lock().unwrap();
+                for id in ids {
+                    match c.get(&id).copied().unwrap_or(0) {
+                        0 => missing += 1,
+                        1 => closes += 1,
+                        x => {
+                            closes += 1;
+                            dup += (x - 1) as u64;
+                        }
+                    }
+                }
+                drop(c);
+                counts.lock().unwrap().clear();
+                batch += n;
+            }
+        })
+    });
+    let mut o = json!({"ev": "racedrop", "rounds": rounds, "threads": k, "closes": closes, "dup": dup, "missing": missing, "panics": panics});
+    if let Err(e) = r {
+        o["panic"] = json!(e);
+    }
+    runner::child_emit(o);
+}
+
 fn child() {
     vh_common::quiet_panics();
     let beh = runner::child_input();
+    if beh["mode"] == "racedrop" {
+        racedrop(&beh);
+        return;
+    }
     let log = new_log();
     let mut regs: HashMap<u64, Dispatch> = HashMap::new();
     for r in 1..=2u64 {
